@@ -588,17 +588,28 @@ Proof.
   pose proof (abs_le_inv _ _ (term_24 xM eM xMprime eMprime xF eF xOmega eOmega E0 dE m0M m1M m0Mprime m1Mprime m0F m1F m0Omega m1Omega BM BMprime BF BOmega HE0 HE1 HdE)) as T24. revert T24. lit. intro T24.
   unfold corr_step_bound. lit. apply abs_le. split; lra.
 Qed.
-(* consecutive results (index k and k+1, both in the window): one synodic month 29.530588861 d within 0.33 d,
-   i.e. between 29.2 and 29.9 days *)
+Lemma w_amp k : win k -> Rabs (P.v_w_1 k - Rlit 0 (-5)) <= 1 / 1000.
+Proof.
+  intro W. pose proof (E_bounds k W) as HE. unfold P.v_w_1.
+  generalize dependent (P.v_E_1 k). intros E0 HE.
+  generalize (P.v_Mr_1 k); intro.
+  generalize (P.v_Mprimer_1 k); intro.
+  generalize (P.v_Fr_1 k); intro.
+  generalize (P.v_Omegar_1 k); intro.
+  unfold P.f_w_1. lit. apply abs_le. split; interval.
+Qed.
+(* consecutive results (index k and k+1, both in the window): one synodic month 29.530588861 d within 33 / 100 d *)
 Theorem step k : win k -> win (k + 1) -> Rabs (P.v_jde_2 (k + 1) - P.v_jde_2 k - P.B) <= 33 / 100.
 Proof.
   intros W0 W1.
   pose proof (abs_le_inv _ _ (corr_step k W0 W1)) as HC. pose proof (abs_le_inv _ _ (Q_step k W0)) as HQ.
   pose proof (abs_le_inv _ _ (corr2_amp k)) as H20. pose proof (abs_le_inv _ _ (corr2_amp (k + 1))) as H21.
+  pose proof (abs_le_inv _ _ (w_amp k W0)) as HW0. pose proof (abs_le_inv _ _ (w_amp (k + 1) W1)) as HW1.
   assert (HS : P.v_jde_2 (k + 1) - P.v_jde_2 k - P.B = (P.f_Q (P.v_t_1 (k + 1)) - P.f_Q (P.v_t_1 k))
-               + (P.v_corr_2 (k + 1) - P.v_corr_2 k) + (P.v_corr2_1 (k + 1) - P.v_corr2_1 k)).
-  { unfold P.v_jde_2, P.f_jde_2, P.v_jde_1, P.f_jde_1, P.v_w_1, P.f_w_1, P.f_Q, P.B. lit. ring. }
-  rewrite HS. unfold corr_step_bound in HC. revert HC. lit. intro HC. apply abs_le. split; lra.
+               + (P.v_corr_2 (k + 1) - P.v_corr_2 k) + (P.v_corr2_1 (k + 1) - P.v_corr2_1 k)
+               + (P.v_w_1 (k + 1) - P.v_w_1 k)).
+  { unfold P.v_jde_2, P.f_jde_2, P.v_jde_1, P.f_jde_1, P.f_Q, P.B. lit. ring. }
+  rewrite HS. unfold corr_step_bound in HC. revert HC HW0 HW1. lit. intros HC HW0 HW1. apply abs_le. split; lra.
 Qed.
 Theorem step_days k : win k -> win (k + 1) -> 292 / 10 <= P.v_jde_2 (k + 1) - P.v_jde_2 k <= 299 / 10.
 Proof.
